@@ -59,6 +59,8 @@ enum EvKind
     EV_STALL = 2,    // a = ns to stall the current thread
     EV_SPURIOUS = 3, // a = thread id spuriously woken from cond wait
     EV_STARTDELAY = 4, // a = ns the newly created thread sleeps first
+    EV_TIMEOUT = 5,    // a = thread id whose timed wait expires now (the
+                       // clock jumps forward to its deadline)
 };
 
 struct SchedEvent
@@ -91,6 +93,9 @@ struct SchedConfig
     // called cond_wait is held (virtual time) before it is enqueued as a
     // waiter: the classic lost-wake-up window, made wide
     double p_prewait = 0.0;
+    // probability per step that some timed wait expires at once (a forward
+    // jump of the clock to its deadline); only drawn while timed waiters exist
+    double p_timeout = 0.0;
     // fine flavour: probability that a cross-thread memory access preempts
     double p_access = 0.0;
     uint64_t max_stall_ns = 50000000ull;
